@@ -247,6 +247,11 @@ class Repo:
                 inlined = inline_new_helpers(tree, rel)
             except RecursionError:
                 inlined = []
+            from .normalize import inline_new_nested_helpers
+            try:
+                inline_new_nested_helpers(tree, rel)
+            except RecursionError:
+                pass
         # (after the inlining, so that inlined bodies are folded / unrolled
         # together with their new surroundings)
         self._normalise(rel, tree)
@@ -256,7 +261,7 @@ class Repo:
     # functions whose rules read the *shape* of the code (writer / reader
     # models): equivalent spellings are brought to one form first
     NORMALISE = {
-        'biom/table.py': {'Table.to_hdf5', 'Table.from_hdf5',
+        'biom/table.py': {'Table.to_hdf5', 'Table.from_hdf5', 'Table.__init__',
                           'Table._index_ids',
                           'general_parser', 'vlen_list_of_str_parser',
                           'general_formatter', 'vlen_list_of_str_formatter'},
